@@ -66,3 +66,57 @@ func C19Vers(r, v string) {
 	ok2, err2 := vers.Contains(r, v)
 	vv.Assert(sameOutcome(ok1, err1, ok2, err2), "C19: vers.Contains returns a different result on a second call")
 }
+
+// c19Hist: results do not depend on call history - the same calls give the same results after
+// unrelated calls with other arguments (a third version c, a second range).
+func c19Hist[V univers.Version[V], VR univers.VersionRange[V]](e univers.Ecosystem[V, VR], a, b, r, c, r2 string) {
+	va, ea := e.NewVersion(a)
+	vv.Assume(ea == nil)
+	vb, eb := e.NewVersion(b)
+	vv.Assume(eb == nil)
+	vr, er := e.NewVersionRange(r)
+	vv.Assume(er == nil)
+	vv.Reached()
+	x1, y1, z1 := va.Compare(vb), vr.Contains(va), vr.Contains(vb)
+	// unrelated traffic
+	if vc, ec := e.NewVersion(c); ec == nil {
+		_ = va.Compare(vc)
+		_ = vc.Compare(vb)
+		_ = vr.Contains(vc)
+		if r3, e3 := e.NewVersionRange(r2); e3 == nil {
+			_ = r3.Contains(vc)
+			_ = r3.Contains(va)
+			_ = r3.String()
+		}
+		_ = vc.String()
+	}
+	x2, y2, z2 := va.Compare(vb), vr.Contains(va), vr.Contains(vb)
+	vv.Assert(x1 == x2, "C19: Compare returns a different result after unrelated calls")
+	vv.Assert(y1 == y2, "C19: Contains returns a different result after unrelated calls")
+	vv.Assert(z1 == z2, "C19: Contains returns a different result after unrelated calls")
+	// fresh values built from the same texts agree with the shared ones
+	va2, _ := e.NewVersion(a)
+	vr2, _ := e.NewVersionRange(r)
+	vv.Assert(va2.Compare(vb) == x1, "C19: a freshly parsed version compares differently from a used one")
+	vv.Assert(vr2.Contains(vb) == z1, "C19: a freshly parsed range answers differently from a used one")
+}
+
+// C19VersHist: vers.Contains(r1, v1) is the same before and after vers.Contains(r2, v2).
+// The first evaluation uses another spelling of r1 (an empty constraint appended, which C16 says
+// changes nothing), so that it cannot share state keyed by the text with the later calls.
+func C19VersHist(r1, v1, r2, v2 string) {
+	ok0, e0 := vers.Contains(r1+"|", v1)
+	ok1, e1 := vers.Contains(r1, v1)
+	vv.Assert(sameOutcome(ok0, e0, ok1, e1), "C19: vers.Contains returns a different result on a second call")
+	_, _ = vers.Contains(r2, v2)
+	ok2, e2 := vers.Contains(r1, v1)
+	vv.Assert(sameOutcome(ok1, e1, ok2, e2), "C19: vers.Contains returns a different result after an unrelated call")
+}
+
+// C19VersHist2: the unrelated call comes first.
+func C19VersHist2(r1, v1, r2, v2 string) {
+	_, _ = vers.Contains(r2, v2)
+	ok1, e1 := vers.Contains(r1, v1)
+	ok0, e0 := vers.Contains(r1+"|", v1)
+	vv.Assert(sameOutcome(ok0, e0, ok1, e1), "C19: vers.Contains returns a different result after an unrelated call")
+}
